@@ -75,6 +75,10 @@ pub enum Op {
     CfgBuf(Option<usize>),
     CfgPct(u64),
     Fault(FaultKind, usize, usize),
+    CloneN(CRef, usize),
+    DropN(CRef, usize),
+    DownN(CRef, usize),
+    WDropN(CRef, usize),
 }
 
 fn idx(pfx: &str, t: &str) -> Option<usize> {
@@ -156,6 +160,10 @@ pub fn parse_op(t: &[&str]) -> Option<Op> {
         ["clrf", n, s] => Op::ClrF(nref(n)?, slot(s)?),
         ["takef", n, s, k] => Op::TakeF(nref(n)?, slot(s)?, idx("h", k)?),
         ["getf", n, s, k] => Op::GetF(nref(n)?, slot(s)?, idx("h", k)?),
+        ["clonen", r, n] => Op::CloneN(cref(r)?, n.parse().ok()?),
+        ["dropn", r, n] => Op::DropN(cref(r)?, n.parse().ok()?),
+        ["downn", r, n] => Op::DownN(cref(r)?, n.parse().ok()?),
+        ["wdropn", r, n] => Op::WDropN(cref(r)?, n.parse().ok()?),
         ["markalive", r] => Op::MarkAlive(cref(r)?),
         ["finagain", k] => Op::FinAgain(idx("h", k)?),
         ["unwrap", k] => Op::Unwrap(idx("h", k)?),
